@@ -57,60 +57,73 @@ Definition bitmap_blocks (l : dd_layout) : N :=
   if dl_two_bitmaps l then 2 * dl_bmp_blocks l else dl_bmp_blocks l.
 
 (** struct disk_dump_header_32 / _64 (packed) *)
-Definition enc_header (l : dd_layout) : bytes :=
-  let be := dl_be l in
-  (if dl_kdump_sig l then sig_kdump else sig_diskdump)
-  ++ put32 be (dl_version l)
-  ++ fit 390 (dl_uts l)
-  ++ (if dl_64 l then zeros 6 ++ zeros 16 else zeros 2 ++ zeros 8)   (* _pad1, timestamp *)
-  ++ put32 be (dl_status l)
-  ++ put32 be (dl_page_size l)
-  ++ put32 be (dl_sub_blocks l)
-  ++ put32 be (bitmap_blocks l)
-  ++ put32 be (N.min (dl_max_mapnr l) (2^32 - 1))
-  ++ put32 be 0 ++ put32 be 0 ++ put32 be 0 ++ put32 be 0   (* total_ram/device/written blocks, current_cpu *)
-  ++ put32 be 1.                                             (* nr_cpus *)
+Definition header_flds (l : dd_layout) : list fld :=
+  [ FB 8 (if dl_kdump_sig l then sig_kdump else sig_diskdump);
+    F32 (dl_version l);
+    FB 390 (dl_uts l) ]
+  ++ (if dl_64 l
+      then [FB 6 []; F32 0; F32 0; F32 0; F32 0]     (* _pad1, struct timeval_64 *)
+      else [FB 2 []; F32 0; F32 0])                  (* _pad1, struct timeval_32 *)
+  ++ [ F32 (dl_status l);
+       F32 (dl_page_size l);                         (* block_size *)
+       F32 (dl_sub_blocks l);                        (* sub_hdr_size *)
+       F32 (bitmap_blocks l);
+       F32 (N.min (dl_max_mapnr l) (2^32 - 1));      (* max_mapnr *)
+       F32 0; F32 0; F32 0; F32 0;                   (* total_ram/device/written blocks, current_cpu *)
+       F32 1 ].                                      (* nr_cpus *)
+
+Definition enc_header (l : dd_layout) : bytes := enc_flds (dl_be l) (header_flds l).
 
 Definition sub_hdr_struct_size (l : dd_layout) : N :=
   if dl_64 l then 104 else if dl_pad l then 96 else 80.
 
+Definition pad8 (b : bytes) : bytes := b ++ pad_to 8 (len b).
+
 (** offsets of the three blobs inside the sub-header blocks (each starts on
     an 8-byte boundary: the note parser reads 32-bit words in place) *)
 Definition vmci_off (l : dd_layout) : N := dl_page_size l + sub_hdr_struct_size l.
-Definition pad8 (b : bytes) : bytes := b ++ pad_to 8 (len b).
 Definition notes_off (l : dd_layout) : N := vmci_off l + len (pad8 (dl_vmcoreinfo l)).
 Definition erase_off (l : dd_layout) : N := notes_off l + len (pad8 (dl_notes l)).
 
 Definition blob_off (off : N) (b : bytes) : N := if len b =? 0 then 0 else off.
 
-(** struct kdump_sub_header_64 / _32pack / _32pad (packed) *)
-Definition enc_sub_hdr (l : dd_layout) : bytes :=
-  let be := dl_be l in
+(** struct kdump_sub_header_64 / _32pad / _32pack (packed); a field that the
+    header version does not know yet is zero *)
+Definition sub_hdr_flds (l : dd_layout) : list fld :=
   let v := dl_version l in
-  let w := if dl_64 l then put64 be else put32 be in          (* "long" fields *)
-  let sz := if dl_64 l then put64 be else put32 be in         (* size_* fields *)
-  let pad := if dl_64 l then [] else if dl_pad l then zeros 4 else [] in
   let since (ver : N) (x : N) := if ver <=? v then x else 0 in
   let lo32 (x : N) := N.min x (2^32 - 1) in
-  let split := if dl_split l then 1 else 0 in
-  w (dl_phys_base l)
-  ++ put32 be (dl_dump_level l)
-  ++ put32 be (since 2 split)
-  ++ w (since 2 (if dl_split l then (if dl_64 l then dl_start_pfn l else lo32 (dl_start_pfn l)) else 0))
-  ++ w (since 2 (if dl_split l then (if dl_64 l then dl_end_pfn l else lo32 (dl_end_pfn l)) else 0))
-  ++ pad
-  ++ put64 be (since 3 (blob_off (vmci_off l) (dl_vmcoreinfo l)))
-  ++ sz (since 3 (len (dl_vmcoreinfo l)))
-  ++ pad
-  ++ put64 be (since 4 (blob_off (notes_off l) (dl_notes l)))
-  ++ sz (since 4 (len (dl_notes l)))
-  ++ pad
-  ++ put64 be (since 5 (blob_off (erase_off l) (dl_eraseinfo l)))
-  ++ sz (since 5 (len (dl_eraseinfo l)))
-  ++ pad
-  ++ put64 be (since 6 (if dl_split l then dl_start_pfn l else 0))
-  ++ put64 be (since 6 (if dl_split l then dl_end_pfn l else 0))
-  ++ put64 be (since 6 (dl_max_mapnr l)).
+  let split := since 2 (if dl_split l then 1 else 0) in
+  let spfn := since 2 (if dl_split l then dl_start_pfn l else 0) in
+  let epfn := since 2 (if dl_split l then dl_end_pfn l else 0) in
+  let off_vmci := since 3 (blob_off (vmci_off l) (dl_vmcoreinfo l)) in
+  let sz_vmci := since 3 (len (dl_vmcoreinfo l)) in
+  let off_note := since 4 (blob_off (notes_off l) (dl_notes l)) in
+  let sz_note := since 4 (len (dl_notes l)) in
+  let off_erase := since 5 (blob_off (erase_off l) (dl_eraseinfo l)) in
+  let sz_erase := since 5 (len (dl_eraseinfo l)) in
+  let spfn64 := since 6 (if dl_split l then dl_start_pfn l else 0) in
+  let epfn64 := since 6 (if dl_split l then dl_end_pfn l else 0) in
+  let max64 := since 6 (dl_max_mapnr l) in
+  if dl_64 l then
+    [ F64 (dl_phys_base l); F32 (dl_dump_level l); F32 split; F64 spfn; F64 epfn;
+      F64 off_vmci; F64 sz_vmci; F64 off_note; F64 sz_note; F64 off_erase; F64 sz_erase;
+      F64 spfn64; F64 epfn64; F64 max64 ]
+  else if dl_pad l then
+    [ F32 (dl_phys_base l); F32 (dl_dump_level l); F32 split; F32 (lo32 spfn); F32 (lo32 epfn);
+      FB 4 [];
+      F64 off_vmci; F32 sz_vmci; FB 4 [];
+      F64 off_note; F32 sz_note; FB 4 [];
+      F64 off_erase; F32 sz_erase; FB 4 [];
+      F64 spfn64; F64 epfn64; F64 max64 ]
+  else
+    [ F32 (dl_phys_base l); F32 (dl_dump_level l); F32 split; F32 (lo32 spfn); F32 (lo32 epfn);
+      F64 off_vmci; F32 sz_vmci;
+      F64 off_note; F32 sz_note;
+      F64 off_erase; F32 sz_erase;
+      F64 spfn64; F64 epfn64; F64 max64 ].
+
+Definition enc_sub_hdr (l : dd_layout) : bytes := enc_flds (dl_be l) (sub_hdr_flds l).
 
 (** page bitmap, LSB 0 numbering: bit [pfn mod 8] of byte [pfn / 8] *)
 Definition byte_of_bits (l : list bool) : N :=
